@@ -203,10 +203,13 @@ def r2(R2, cfg, F):
 
 def r3(R3, cfg, F):
     D = 'hot_reloading::dependencies::'
-    b = F.body(D + 'DepsGraph::visit')
+    b = common.find_visit(F)
     if not b:
         R3.missing(cfg, 'DepsGraph::visit')
         return
+    # the key being visited: the parameter of type BorrowedDependency (wherever it is in the parameter list)
+    karg = [i for i in range(1, b.arg_count + 1) if 'BorrowedDependency' in b.local_ty(i)]
+    KEY = 'arg%d' % karg[0] if len(karg) == 1 else 'arg3'
     chk = [c for c in b.calls() if c.callee and c.callee.name == 'contains' and 'HashSet' in c.callee.best and 'visited' in (b.access_path(c.args[0]) or []) or
            (c.callee and c.callee.name == 'contains' and 'HashSet' in c.callee.best and
             any('visited' in (b.access_path(r.args[0]) or []) for r in b.call_roots(c.args[0], passthrough=lambda s: None)))]
@@ -219,14 +222,14 @@ def r3(R3, cfg, F):
             notseen = [d for d, lab in b.edges(sw[0]) if lab == 'sw:0']
             ok = bool(notseen) and push[0].bb not in b.reachable([0], removed_edges=[(sw[0], notseen[0])])
             ap = b.access_path(chk[0].args[1])
-            ok = ok and bool(ap) and ap[0] == 'arg3'
+            ok = ok and bool(ap) and ap[0] == KEY
     R3.check(ok, cfg, b.path, 'visited-check-guards-the-push', 'visit must return early for an already visited key before pushing it (each asset at most once per pass)', b.loc())
     # the visited key inserted is the key being visited
     ins = [c for c in b.calls() if c.callee and c.callee.name == 'insert' and 'HashSet' in c.callee.best]
     ok = len(ins) == 1
     if ok:
         r = b.call_roots(ins[0].args[1])
-        ok = [x.callee.name for x in r if x.callee] == ['into_owned'] and b.access_path(r[0].args[0]) == ['arg3']
+        ok = [x.callee.name for x in r if x.callee] == ['into_owned'] and b.access_path(r[0].args[0]) == [KEY]
     R3.check(ok, cfg, b.path, 'marks-own-key-visited', 'visit must mark exactly the key it is visiting', ins[0].loc() if ins else b.loc())
     # only visit pushes to TopologicalSortData.list
     pushers = sorted({bb.path for bb, _, _, s in field_refs(F, D + 'TopologicalSortData', 'list') if s['rv']['k'] == 'ref' and s['rv']['mut']})
